@@ -459,6 +459,9 @@ func GenAnyVal(t *rapid.T, ty string) AnyVal {
 		a.I = genIntOfKind(t, pt.K, "any")
 	case pt.K == KF32:
 		a.F = float64(float32(genFloat(t, "any")))
+		if math.IsInf(a.F, 0) {
+			a.F = math.MaxFloat32 // JSON (replay files) cannot carry infinities
+		}
 	case pt.K == KF64:
 		a.F = genFloat(t, "any")
 	case pt.K == KStr:
